@@ -24,8 +24,8 @@ TRUSTED = [
 ]
 
 
-LEAN_TARGETS = ["QuriVerif.Props.C01", "QuriVerif.Props.Reflect", "QuriVerif.Props.ReflectLift", "QuriVerif.Props.C01Lift", "QuriVerif.Props.C01Pass"]
-REFLECT = ["QuriVerif.Props.Reflect", "QuriVerif.Props.ReflectLift", "QuriVerif.Props.C01Lift", "QuriVerif.Props.C01Pass"]
+LEAN_TARGETS = ["QuriVerif.Props.C01", "QuriVerif.Props.Reflect", "QuriVerif.Props.ReflectLift", "QuriVerif.Props.C01Lift", "QuriVerif.Props.C01Pass", "QuriVerif.Props.C01Pipeline"]
+REFLECT = ["QuriVerif.Props.Reflect", "QuriVerif.Props.ReflectLift", "QuriVerif.Props.C01Lift", "QuriVerif.Props.C01Pass", "QuriVerif.Props.C01Pipeline"]
 LEAN_TARGETS_THOROUGH = ["QuriVerif.Props.C01Deep"]
 
 
@@ -771,7 +771,9 @@ def run(ctx: Ctx, replay=None) -> int:
         private = {"hh_exact", "rxT_exact", "rxT_nz", "cnotT_check", "cnotT_nz", "u3T_check", "u3T_nz", "toffoliT_check", "toffoliT_nz"}
         names += [f"QV.Props.Reflect.{n}" for _, n, _ in ctx.count_obligations(REFLECT[:2]) if n not in private]
         names += [f"QV.Props.C01Lift.{n}" for _, n, _ in ctx.count_obligations(REFLECT[2:3])]
-        names += [f"QV.Props.C01Pass.{n}" for _, n, _ in ctx.count_obligations(REFLECT[3:]) if n != "circ3_ok"]
+        names += [f"QV.Props.C01Pass.{n}" for _, n, _ in ctx.count_obligations(REFLECT[3:4]) if n != "circ3_ok"]
+        priv = {"circ_inv", "pipe_runs", "pipe_len", "circ2_inv", "pipe2_runs", "pipe2_kinds"}
+        names += [f"QV.Props.C01Pipeline.{n}" for _, n, _ in ctx.count_obligations(REFLECT[4:]) if n not in priv]
         ctx.audit(names, ["QuriVerif.Props.C01"] + REFLECT)
         with ctx.timed("correspond"):
             check_factories(ctx)
